@@ -134,7 +134,8 @@ class Runner:
 
     # ------------------------------------------------------------------
     def write_replay(self, v):
-        os.makedirs(os.path.join(VERIF, "replays"), exist_ok=True)
+        rdir = os.environ.get("VERIF_REPLAY_DIR") or os.path.join(VERIF, "replays")
+        os.makedirs(rdir, exist_ok=True)
         body = {
             "format": "nessai-sim-replay/1",
             "property": self.prop,
@@ -150,7 +151,7 @@ class Runner:
         }
         body = jsonable(body)
         name = hashlib.sha1(json.dumps(body, sort_keys=True).encode()).hexdigest()[:12]
-        path = os.path.join(VERIF, "replays", f"{self.prop}-{name}.json")
+        path = os.path.join(rdir, f"{self.prop}-{name}.json")
         with open(path, "w") as f:
             json.dump(body, f, indent=1, sort_keys=True)
         return path
@@ -222,8 +223,9 @@ class Runner:
             "violations": nviol,
         }
         if not self.replay:
-            os.makedirs(os.path.join(VERIF, "evidence"), exist_ok=True)
-            with open(os.path.join(VERIF, "evidence", f"{self.prop}.json"), "w") as f:
+            edir = os.environ.get("VERIF_EVIDENCE_DIR") or os.path.join(VERIF, "evidence")
+            os.makedirs(edir, exist_ok=True)
+            with open(os.path.join(edir, f"{self.prop}.json"), "w") as f:
                 json.dump(ev, f, indent=1, sort_keys=True)
         for ln in lines:
             print(ln, flush=True)
